@@ -224,6 +224,12 @@ func (c C09Case) opName() string {
 func faultOffsets(n int) []int {
 	var out []int
 	for k := 0; k < n; k++ {
+		if n > 8000 { // very long inputs: both ends densely, the middle sparsely
+			if k < 200 || k >= n-300 || k%509 == 0 {
+				out = append(out, k)
+			}
+			continue
+		}
 		if n <= 700 || k < 300 || k >= n-150 || k%13 == 0 {
 			out = append(out, k)
 		}
@@ -403,7 +409,7 @@ func genC09(t *rapid.T) C09Case {
 		c.Thr = rapid.SampledFrom([]int{-1, -1, 0, 1, 64, 256}).Draw(t, "thr")
 		id := genID(t)
 		c.Frame = &C07Frame{ID: id, Len: rapid.SampledFrom([]int{0, 1, 2, 5, 63, 64, 65, 127, 128, 300, 1000}).Draw(t, "len"), Kind: rapid.IntRange(0, 2).Draw(t, "kind"), Seed: rapid.Byte().Draw(t, "seed")}
-		if rapid.IntRange(0, 30).Draw(t, "window") == 17 {
+		if rapid.IntRange(0, 60).Draw(t, "window") == 17 {
 			// id + payload exactly fill k inflate windows (32 KiB): the decompressor has produced everything
 			// before it has seen the end of the compressed stream
 			c.Frame.Len = 32768*rapid.IntRange(1, 2).Draw(t, "windows") - idLen(id) + rapid.SampledFrom([]int{0, 0, 0, -1, 1}).Draw(t, "windowoff")
